@@ -159,6 +159,14 @@ class ContractMixin:
             node = ast.parse(m, mode="eval").body
             if not isinstance(node, ast.Attribute):
                 raise EngineError(f"modifies clause must be an attribute location: {m}")
+            if isinstance(node.value, ast.Name) and node.value.id not in bound and (
+                    node.value.id in self.pseudo_classes() or self.class_info(node.value.id)[0] is not None):
+                # `Class.field`: the field of ANY object of that class (whole-field frame)
+                fd = self.field_decl(node.value.id, node.attr)
+                if fd is None:
+                    raise EngineError(f"modifies unknown field: {m}")
+                locs.append((None, fd[0], fd[1]))
+                continue
             s = self.spec_state(st, bound, mod, fs.qualname, fnode)
             base = self.evs(node.value, s)
             bt = base.t.inner if isinstance(base.t, TOpt) else base.t
@@ -175,7 +183,10 @@ class ContractMixin:
         for ref, key, t in self.modifies_locs(fs, bound, st, mod, fnode):
             if check:
                 self.check_frame(st, ref, key, node)
-            st.havoc_loc(ref, key, t)
+            if ref is None:
+                st.havoc_field(key, t)
+            else:
+                st.havoc_loc(ref, key, t)
         if not fs.pure:
             st.havoc_alloc()
 
